@@ -5,6 +5,7 @@ import (
 	"flag"
 	"fmt"
 	"io/ioutil"
+	"math"
 	"os"
 	"os/signal"
 	"regexp"
@@ -184,7 +185,9 @@ func validateFlags() []error {
 	}
 
 	// We limit qps to < 1000 to ensure we don't overload Spanner accidentally.
-	if *qps <= 0 || *qps > 1000 {
+	// The probe interval (1s / qps) must also be a positive duration that fits into
+	// time.Duration: this rejects NaN and vanishingly small rates.
+	if interval := float64(time.Second) / *qps; !(*qps > 0 && *qps <= 1000) || !(interval >= 1 && interval < math.MaxInt64) {
 		errs = append(errs, fmt.Errorf("qps must be 1 <= qps <= 1000, was %v", *qps))
 	}
 
